@@ -343,6 +343,17 @@ def check(case, ctx):
         if reader_info["ambiguous_bundle_ids"]:
             ctx.count("excluded_ambiguous_bundle_id")
             return []
+    elif case["mode"] == "T":
+        text = case["text"]
+        ctx.count("T:" + fmt)
+        ctx.nontrivial(True)
+        try:
+            expected, info = (rj.read(text, foreign=True) if fmt == "json" else rx.read(text))
+            if info["ambiguous_bundle_ids"]:
+                expected = None
+        except (rj.ProvJSONStructureError, rx.ProvXMLStructureError, ValueError):
+            ctx.count("T:independent_reader_rejects")
+            expected = None
     else:
         files = corpus(fmt)
         path = files[case["file"] % len(files)]
@@ -419,3 +430,38 @@ def inconclusive(classes):
     if a_total and classes.get("A:rejected", 0) > 0.2 * a_total:
         return "%d of %d specification-driven texts were refused with a library error" % (classes.get("A:rejected", 0), a_total)
     return None
+
+
+def run_stateful(tier, seed, ctx, findings, reported, failures):
+    """thorough tier only: the coverage-guided campaign (atheris / libFuzzer) over sequences of corpus mutations"""
+    if tier != "thorough":
+        return
+    import subprocess
+    import sys
+    root = os.path.dirname(os.path.dirname(os.path.dirname(os.path.abspath(__file__))))
+    probe = subprocess.run([sys.executable, "-c", "import sys; sys.path.insert(0, %r); import atheris" % os.path.join(root, ".deps")],
+                           capture_output=True)
+    if probe.returncode != 0:
+        ctx.count("fuzz:skipped_atheris_not_installed")
+        return
+    out = os.path.join(ctx.workdir, "fuzz")
+    runs = 12000
+    p = subprocess.run([sys.executable, "-m", "pbt.fuzz_c11", out, str(seed), str(runs)], cwd=root, capture_output=True, text=True,
+                       env=dict(os.environ, PYTHONPATH=root + os.pathsep + os.environ.get("PYTHONPATH", "")), timeout=3600)
+    try:
+        with open(os.path.join(out, "stats.json")) as f:
+            st_ = json.load(f)
+        ctx.count("fuzz:execs", st_["execs"])
+        ctx.count("fuzz:distinct_texts", st_["distinct_texts"])
+        ctx.evaluations += st_["applied"]
+        for k, v in st_["classes"].items():
+            ctx.count("fuzz:" + k, v)
+    except (OSError, ValueError):
+        ctx.count("fuzz:no_stats")
+    for fn in sorted(os.listdir(out)) if os.path.isdir(out) else []:
+        if fn.startswith("violation-"):
+            with open(os.path.join(out, fn)) as f:
+                v = json.load(f)
+            if v["bucket"] not in reported:
+                reported.add(v["bucket"])
+                failures.append({"case": v["case"], "items": v["diff"], "bucket": v["bucket"]})
